@@ -9,7 +9,7 @@ from .. import refber as B
 from .. import refsnmp as S
 from .. import refusm as U
 from ..runner import rng_for
-from ..world import BudgetExceeded, World, agent_for
+from ..world import BudgetExceeded, World, agent_for, make_credentials
 
 ID = "C09"
 LEVEL = "fault_enumeration"
@@ -34,7 +34,8 @@ RULE = ("For every scenario (hash x level x operation x database; quick: 2x2x{ge
         "(flags 0/1/3/4 mismatching the credentials with plaintext scoped PDU, digest empty/1/6/11/12-zero/13/random, signed "
         "under another password / right password localised to another engine / another user, privacy flag cleared with "
         "plaintext, authentication flag cleared (msgFlags 0x02) with the ciphertext malleated by one bit / plaintext / attacker "
-        "octets, unauthenticated Reports with usmStats OIDs, unknown OIDs, response bindings or no bindings). Oracle: exception, or "
+        "octets, the same forgeries against a client that first used the user name without keys and was then given them, "
+        "unauthenticated Reports with usmStats OIDs, unknown OIDs, response bindings or no bindings). Oracle: exception, or "
         "exactly the authentic result; for Reports only an exception. Non-trivial: a twin in which the transformed datagram "
         "was delivered; distinct = distinct (scenario, transformation)." % (CHUNK, len(FORGERIES)))
 ASSUMPTIONS = [
@@ -43,7 +44,7 @@ ASSUMPTIONS = [
     "replaying an authentic response to a different request is not among the property's attacker actions and is not generated",
 ]
 PROBES = ["flip_in_digest", "flip_in_header", "flip_in_pdu_or_cipher", "flip_tolerated_same_result", "forgery_delivered",
-          "report_forgery", "downgrade_forgery", "authpriv", "walk_target_later_response"]
+          "report_forgery", "downgrade_forgery", "authpriv", "walk_target_later_response", "keys_configured_after_noauth_phase"]
 shrink_lists: List[tuple] = []
 
 BASE = (1, 3, 6, 1, 2, 1, 7)
@@ -68,6 +69,11 @@ def _units(tier: str) -> List[Tuple[int, dict]]:
             units.append((si, {"kind": "flips", "bytes": [start, start + CHUNK]}))
         for name in FORGERIES:
             units.append((si, {"kind": "forge", "name": name}))
+        # the same forgeries against a client that first talked to the agent as the SAME user without keys
+        # (noAuthNoPriv) and was then given the user's keys (Client.configure): nothing remembered from the
+        # unprotected phase may weaken the protected one
+        for name in FORGERIES:
+            units.append((si, {"kind": "forge", "name": name, "prior": "noauth"}))
     return units
 
 
@@ -131,12 +137,14 @@ def _run(plan: dict, rewrite: Any) -> dict:
     agent = w.add_agent(agent_for(proto, dict(plan["mib"])))
     seen: Dict[int, bytes] = {}
     delivered = {"n": 0}
+    target_shift = [0]
+    armed = [True]
 
     def rewriter(direction: str, idx: int, data: bytes) -> Optional[bytes]:
         if direction != "a2c":
             return None
         seen[idx] = data
-        if idx == plan["target"] and rewrite is not None:
+        if armed[0] and idx == plan["target"] + target_shift[0] and rewrite is not None:
             new = rewrite(data, agent)
             if new is not None and new != data:
                 delivered["n"] += 1
@@ -144,7 +152,18 @@ def _run(plan: dict, rewrite: Any) -> dict:
         return None
 
     w.net.rewriter = rewriter
-    client = w.client(proto, timeout=1, retries=1)
+    prior = plan["attack"].get("prior")
+    if prior == "noauth":
+        agent.require_exact_level = False
+        armed[0] = False
+        client = w.client({"version": "v3", "user": proto["user"], "level": 0}, timeout=1, retries=1)
+        from ..world import OID as _OID
+        w.run(client.get(_OID(BASE + (1, 1, 1))))
+        client.configure(credentials=make_credentials(proto))
+        target_shift[0] = w.net.dir_index["a2c"] - 1      # no second discovery: responses are counted on from here
+        armed[0] = True
+    else:
+        client = w.client(proto, timeout=1, retries=1)
     res = exc = None
 
     async def one() -> Any:
@@ -159,7 +178,7 @@ def _run(plan: dict, rewrite: Any) -> dict:
     if not hang:
         w.settle()
     out = {"res": res, "exc": exc, "seen": seen, "hang": hang, "digest": w.net.digest(), "delivered": delivered["n"],
-           "sim_s": w.loop.time(), "exchanges": agent.exchanges, "agent_engine": agent.engine_id,
+           "sim_s": w.loop.time(), "exchanges": agent.exchanges, "agent_engine": agent.engine_id, "target_shift": target_shift[0],
            "counters": dict(w.net.counters)}
     w.close()
     return out
@@ -287,12 +306,13 @@ def execute(plan: dict) -> dict:
     probes = {k: 0 for k in PROBES}
     probes["authpriv"] = int(sc["level"] == 3)
     probes["walk_target_later_response"] = int(plan["target"] > 1)
+    probes["keys_configured_after_noauth_phase"] = int(plan["attack"].get("prior") == "noauth")
     digests = [base["digest"]]
     exchanges, sim_s = base["exchanges"], base["sim_s"]
     twins = delivered = tolerated = hangs = 0
     if base["exc"] is not None:
         fail("baseline-failed", "the un-attacked exchange raised %s: %s" % (type(base["exc"]).__name__, base["exc"]))
-    R = base["seen"].get(plan["target"])
+    R = base["seen"].get(plan["target"] + base.get("target_shift", 0))
     attack = plan["attack"]
     todo: List[Tuple[str, Any]] = []
     if violation is None and R is not None:
